@@ -180,9 +180,18 @@ class AnnDataRowIterator(object):
         If sparse is True, return result as a CSR matrix.
         Otherwise, return as a dense array.
         """
-        return self._chunk_iterator.get_batch(
-                        row_idx,
+        # the iterators underneath expect a non-empty list without
+        # repeated rows: fetch each requested row once and lay the
+        # result out as requested
+        (unique_idx,
+         inverse) = np.unique(
+             np.array(row_idx, dtype=int), return_inverse=True)
+        if len(unique_idx) == 0:
+            unique_idx = np.array([0])
+        batch = self._chunk_iterator.get_batch(
+                        [int(ii) for ii in unique_idx],
                         sparse=sparse)
+        return batch[inverse, :]
 
     def _initialize_as_csc(
             self,
